@@ -192,7 +192,23 @@ fn map_node(n: &Node, f: &dyn Fn(&Node) -> Option<Node>) -> Node {
     }
 }
 
-fn classify(n: &Node, dot: bool, lang: &str, pasted: &str) -> Vec<String> {
+/// canonical form for comparisons: range corners in order (the A1 parser orders them), names compared by spelling
+fn canon(n: &Node, arow: i32, acol: i32) -> Node {
+    map_node(n, &|x| match x {
+        Node::RangeKind { sheet_name, sheet_index, absolute_row1, absolute_column1, row1, column1, absolute_row2, absolute_column2, row2, column2 } => {
+            let pr = |abs: bool, v: i32, a: i32| if abs { v } else { v + a };
+            let (mut ra, mut rb) = ((*absolute_row1, *row1), (*absolute_row2, *row2));
+            let (mut ca, mut cb) = ((*absolute_column1, *column1), (*absolute_column2, *column2));
+            if pr(rb.0, rb.1, arow) < pr(ra.0, ra.1, arow) { std::mem::swap(&mut ra, &mut rb); }
+            if pr(cb.0, cb.1, acol) < pr(ca.0, ca.1, acol) { std::mem::swap(&mut ca, &mut cb); }
+            Some(Node::RangeKind { sheet_name: sheet_name.clone(), sheet_index: *sheet_index, absolute_row1: ra.0, absolute_column1: ca.0, row1: ra.1, column1: ca.1,
+                absolute_row2: rb.0, absolute_column2: cb.0, row2: rb.1, column2: cb.1 })
+        }
+        Node::DefinedNameKind((name, _, _)) => Some(Node::NamedVariableKind { name: name.clone(), id: None }),
+        _ => None,
+    })
+}
+fn classify(n: &Node, dot: bool, lang: &str, pasted: &str, other: bool) -> Vec<String> {
     let mut pairs = vec![];
     moved_bad_pairs(n, &mut pairs);
     if !pairs.is_empty() {
@@ -208,6 +224,8 @@ fn classify(n: &Node, dot: bool, lang: &str, pasted: &str) -> Vec<String> {
         return vec!["moved_lambda_optional_parameter_loses_brackets".into()];
     }
     if let Some(g) = glue_class(n, false) { return vec![format!("lexer_glue:{g}")]; }
+    // pasted on another sheet an unqualified reference acquires the sheet name: "Sheet1!A1:x" is F04 too
+    if other && contains(n, &|x| matches!(x, Node::OpRangeKind { left, .. } if matches!(rightmost(left), Node::ReferenceKind { .. }))) { return vec!["lexer_glue:ref_colon_F04".into()]; }
     if contains(n, &|x| matches!(x, Node::ErrorKind(ironcalc_base::expressions::token::Error::NIMPL))) { return vec!["error_nimpl_spelling".into()]; }
     if lang != "en" && contains(n, &|x| matches!(x, Node::ErrorKind(_))) { return vec!["error_not_localized".into()]; }
     let lg = get_language(lang).unwrap();
@@ -261,8 +279,10 @@ impl<'a> Run<'a> {
         }
         self.or.checked += 1;
         let expected = spec_move(&n, cx);
-        if back != expected {
-            for class in classify(&n, dot, lang, &pasted) {
+        if canon(&back, tgt.row, tgt.column) != canon(&expected, tgt.row, tgt.column) {
+            for class in classify(&n, dot, lang, &pasted, cx.tgt_sheet != cx.src_sheet) {
+                // a cell of the cut area moved off the grid: not a paste a user can make
+                if class == "moved_reference_off_grid" && !text.contains("#REF!") { *self.dist.entry("cut_off_grid_skipped".into()).or_insert(0) += 1; continue; }
                 self.or.fail(&class, json!({"formula": text, "locale": locale, "lang": lang, "cut": format!("{cx:?}"), "pasted": pasted}),
                     format!("{text} cut {cx:?} pastes as {pasted}: parses to [{}], expected [{}]", dump_s(&back, self.fns), dump_s(&expected, self.fns)));
             }
@@ -279,7 +299,7 @@ impl<'a> Run<'a> {
                     Some(Node::RangeKind { sheet_name: None, sheet_index: cx.tgt_sheet, absolute_row1: *absolute_row1, absolute_column1: *absolute_column1, row1: *row1, column1: *column1,
                         absolute_row2: *absolute_row2, absolute_column2: *absolute_column2, row2: *row2, column2: *column2 }),
                 _ => None });
-            if cb != exp {
+            if canon(&cb, tgt.row, tgt.column) != canon(&exp, tgt.row, tgt.column) {
                 let class = if copied.contains("#REF!") { "copy_reference_off_grid_is_ref_error".to_string() }   // legitimate: part of the statement
                     else {
                         let mut bp = vec![]; bad_pairs(&n, false, &mut bp);
